@@ -60,6 +60,21 @@ impl Report {
             let _ = o.flush();
         }
     }
+    /// fold a per-case report into this one (violations were already printed)
+    pub fn merge(&mut self, o: Report) {
+        for (k, v) in o.stats {
+            *self.stats.entry(k).or_insert(0) += v;
+        }
+        self.violations += o.violations;
+        for d in o.distinct {
+            self.distinct.insert(d);
+        }
+        for s in o.samples {
+            if self.samples.len() < 6 {
+                self.samples.push(s);
+            }
+        }
+    }
     pub fn finish(&mut self) {
         let mut o = std::io::stdout().lock();
         for s in &self.samples {
